@@ -116,17 +116,19 @@ Proof.
   - inversion Hcs as [|c' cs' Hc Hcs']; subst.
     destruct (step_facts c clock debt Hc Hinv)
       as (r & D & clock1 & debt1 & slept & Heq & Hr & F1 & F2 & F3 & F4 & F5 & F6 & F7 & Hinv1).
+    pose proof (Qred_correct clock1) as R1. pose proof (Qred_correct debt1) as R2.
+    assert (Hinv1' : debt_inv TH O (Qred debt1)) by (unfold debt_inv in *; lra).
     cbn [run_nocap]. rewrite Heq. unfold q_upto. cbn [filter ev_time].
     rewrite <- Hr.
     destruct (Qle_bool r u) eqn:E.
     + apply Qle_bool_true in E. cbn [map sumQ fold_right ev_bytes].
-      fold (sumQ (map (fun ev => ev_bytes ev / L) (filter (fun ev => Qle_bool (ev_time ev) u) (run_nocap TH L clock1 debt1 cs)))).
-      fold (q_upto u (run_nocap TH L clock1 debt1 cs)).
-      assert (q_upto u (run_nocap TH L clock1 debt1 cs) <= B - c_size c / L).
+      fold (sumQ (map (fun ev => ev_bytes ev / L) (filter (fun ev => Qle_bool (ev_time ev) u) (run_nocap TH L (Qred clock1) (Qred debt1) cs)))).
+      fold (q_upto u (run_nocap TH L (Qred clock1) (Qred debt1) cs)).
+      assert (q_upto u (run_nocap TH L (Qred clock1) (Qred debt1) cs) <= B - c_size c / L).
       { apply IH; auto; set (q := c_size c / L) in *; lra. }
       lra.
     + apply Qle_bool_false in E.
-      fold (q_upto u (run_nocap TH L clock1 debt1 cs)).
+      fold (q_upto u (run_nocap TH L (Qred clock1) (Qred debt1) cs)).
       apply IH; auto. lra.
 Qed.
 
@@ -161,19 +163,21 @@ Proof.
   - inversion Hcs as [|c' cs' Hc Hcs']; subst. inversion Hmax as [|c'' cs'' Hm Hmax']; subst.
     destruct (step_facts c clock debt Hc Hinv)
       as (r & D & clock1 & debt1 & slept & Heq & Hr & F1 & F2 & F3 & F4 & F5 & F6 & F7 & Hinv1).
+    pose proof (Qred_correct clock1) as R1. pose proof (Qred_correct debt1) as R2.
+    assert (Hinv1' : debt_inv TH O (Qred debt1)) by (unfold debt_inv in *; lra).
     cbn [run_nocap]. rewrite Heq. unfold q_window. cbn [filter]. unfold in_window at 1. cbn [ev_time].
     rewrite <- Hr.
     destruct (Qle_bool t r) eqn:E1.
     + apply Qle_bool_true in E1.
-      assert (Hrest : q_window t T (run_nocap TH L clock1 debt1 cs) <= T + PL - D).
+      assert (Hrest : q_window t T (run_nocap TH L (Qred clock1) (Qred debt1) cs) <= T + PL - D).
       { eapply Qle_trans; [apply window_le_upto; apply run_nocap_bytes_nonneg; assumption|].
         apply upto_bound; auto; lra. }
       unfold q_window in Hrest.
       destruct Hc as (_ & _ & (Hq0 & _) & _).
       destruct (Qle_bool r (t + T)); cbn [andb map sumQ fold_right ev_bytes];
-        fold (sumQ (map (fun ev => ev_bytes ev / L) (filter (in_window t T) (run_nocap TH L clock1 debt1 cs))));
+        fold (sumQ (map (fun ev => ev_bytes ev / L) (filter (in_window t T) (run_nocap TH L (Qred clock1) (Qred debt1) cs))));
         set (q := c_size c / L) in *; lra.
-    + cbn [andb]. fold (q_window t T (run_nocap TH L clock1 debt1 cs)). apply IH; auto.
+    + cbn [andb]. fold (q_window t T (run_nocap TH L (Qred clock1) (Qred debt1) cs)). apply IH; auto.
 Qed.
 
 (* the cap at PAUSE_LIMIT never fires: the run with the cap is the run without it *)
@@ -193,7 +197,8 @@ Proof.
     destruct Hc as (Hg & He & (Hq0 & Hq1) & _). destruct Hinv as (_ & Hd1).
     destruct (owed_spec L (c_lat c) (clock + c_gap c) (c_size c) He) as (_ & _ & P3). specialize (P3 Hq0).
     set (p := owed _ _ _ _) in *. set (q := c_size c / L) in *. lra. }
-  rewrite Hsame, Heq. f_equal. apply IH; assumption.
+  rewrite Hsame, Heq. f_equal. apply IH; [assumption|].
+  pose proof (Qred_correct debt1) as R2. unfold debt_inv in *; lra.
 Qed.
 
 (* debt stays within [-O, TH] after every call; the sleep requested never exceeds PL *)
@@ -209,10 +214,10 @@ Proof.
     rewrite Heq; set (p := owed _ _ _ _) in *; set (q := c_size c / L) in *.
   - constructor.
     + cbn [ev_debt ev_sleep]. unfold debt_inv. repeat split; lra.
-    + apply IH; [assumption|]. unfold debt_inv. split; lra.
+    + apply IH; [assumption|]. unfold debt_inv. rewrite Qred_correct. split; lra.
   - constructor.
     + cbn [ev_debt ev_sleep]. unfold debt_inv. repeat split; lra.
-    + apply IH; [assumption|]. unfold debt_inv. split; lra.
+    + apply IH; [assumption|]. unfold debt_inv. rewrite Qred_correct. split; lra.
 Qed.
 End Single.
 
